@@ -964,7 +964,10 @@ class SP(Robot):
         fk = lambda x : (self._IKHelper(tm(x), plate_pos)[0] - L).reshape((6))
 
         #solres = sci.optimize.fmin(fkprime, self.getTopT().TAA, disp=True)
-        init = self.getTopT().TAA.copy()
+        #Start from the current relative pose, placed on the plate the solve is asked for
+        #(the stored top pose itself is only the right start while that plate is the stored one)
+        init = fsr.localToGlobal(plate_pos,
+                fsr.globalToLocal(self.getBottomT(), self.getTopT())).TAA.copy()
         found_sol = True
         solres = sci.optimize.fsolve(fk, init)
         sol = tm(solres)
